@@ -53,6 +53,7 @@ EXPECT = [
     ("TaskPrecedence between a task group and an optional task", "C18"),
     ("already required by a task is refused as an alternative", "C02"),
     ("export_to_smt2 in debug mode asserts the tracking literals", "C16"),
+    ("a constraint whose creation fails is removed from the problem", "C18"),
 ]
 
 
